@@ -771,7 +771,7 @@ fn check_macro(property: &str, tier: &str, base_seed: u64, runs_override: Option
     let fixtures = fixture_corpus();
     let thorough = tier == "thorough";
     let (n, extra_n, stream): (u64, usize, u64) = match property {
-        "C15" => (if thorough { 4000 } else { 480 }, 1, 31),
+        "C15" => (if thorough { 6000 } else { 800 }, 1, 31),
         _ => (if thorough { 1600 } else { 160 }, 3, 32),
     };
     let n = runs_override.map(|r| std::cmp::max(8, r / 4)).unwrap_or(n);
